@@ -77,7 +77,8 @@ def r1_snapshot_protocol(report, repo):
                'each watcher gets its own new threading.Event')
   rets = [n for n in walk_no_nested(f.node) if isinstance(n, ast.Return)]
   ok = len(rets) == 1 and isinstance(rets[0].value, ast.Tuple) and \
-      len(rets[0].value.elts) == 2 and dotted(rets[0].value.elts[1]) == ev
+      len(rets[0].value.elts) == 2 and ev is not None and ev in \
+      lib.copy_class(f, dotted(rets[0].value.elts[1]) or '?')
   if ok:
     s0 = rets[0].value.elts[0]
     src = s0
